@@ -212,6 +212,7 @@ void h_opni_load_save_load(void)
 void h_WOPN_Init(void)
 {
     uint16_t m = nondet_u16(), p = nondet_u16();
+    __CPROVER_assume(m <= 3 && p <= 3);   /* BOUND: counts <= 3 (symbolic calloc sizes of 9 KB elements did not finish); larger counts: assumed contract */
     WOPNFile *f = WOPN_Init(m, p);
     REACH(f != NULL && m == 0, "default melodic"); REACH(f != NULL && p == 3, "three percussive");
 }
@@ -237,3 +238,8 @@ void h_LoadBank_bounded_1_1(void)
     else __CPROVER_assert(SPEC_IS_LOAD_ERROR(err), "BOUNDED rejected with a defined error code");
     REACH(f != NULL && f->version == 2, "v2 accepted"); REACH(f != NULL && f->version == 1, "v1 accepted"); REACH(f == NULL && err == WOPN_ERR_UNEXPECTED_ENDING, "short");
 }
+
+#ifndef CALC_V
+#define CALC_V 2
+#endif
+void h_CalcBankSize(void) { WOPNFile *f; uint16_t v = CALC_V;   /* one group per version value 0,1,2 (a symbolic version makes ins_size*128*count a symbolic x symbolic product) */ size_t r = WOPN_CalculateBankFileSize(f, v); REACH(r == 0, "null"); REACH(r > 100000, "big"); }
